@@ -267,16 +267,6 @@ impl Driver for ExecDriver {
                 continue;
             }
             // ---- known classes
-            if mode == IMode::BlockExit && dm::op_name(&ops[at]) == "If" && !background {
-                let end = st.else_of.get(&at).copied().unwrap_or_else(|| st.end_of[&at]);
-                if (at + 1..end).any(|i| is_open(&ops[i])) {
-                    if c.avoid("block_exit_on_if_with_nested_construct") {
-                        c.steered("block_exit_on_if_with_nested_construct");
-                        continue;
-                    }
-                    triggers.push("block_exit_on_if_with_nested_construct");
-                }
-            }
             if mode == IMode::SemAfter && is_branch(&ops[at]) {
                 let tg = branch_targets(ops, st, at);
                 if tg.iter().any(|t| t.is_none()) {
